@@ -5,6 +5,7 @@
 // restarts the harness behind the failing case.
 #pragma once
 #include <unistd.h>
+#include <cerrno>
 #include <csignal>
 #include <cstdint>
 #include <cstdio>
@@ -89,6 +90,10 @@ inline int run(const std::function<void()> & reset, const std::function<std::str
     if (t[0][0] == '#') { reset(); std::fputs("#\n", stdout); std::fflush(stdout); continue; }
     std::string out;
     alarm(hang);
+    // ambient state the library must not depend on: `errno` may hold anything an earlier libm / libc call of the process left
+    // there (e.g. ERANGE after a log(0) elsewhere). It is set to ERANGE / EDOM / 0 in turn before every op — results that change
+    // with it are a correspondence disagreement or a probe failure (seeded change c03c guards on a stale `errno == ERANGE`).
+    { static unsigned long opCounter = 0; static const int ambient[3] = {ERANGE, EDOM, 0}; errno = ambient[opCounter++ % 3]; }
     try { out = handle(t); }
     catch (const BadOp &) { out = "bad-op"; }
     catch (const std::exception & e) { out = std::string("exception"); }
